@@ -2,7 +2,633 @@ import DswModel.Model.Spiderweb
 import DswModel.Lemmas.Defs
 import DswModel.Lemmas.DeBruijn
 import DswModel.Lemmas.Trim
-/-! Helper lemmas for the threshold-1 phase of `connect_coding_graph` and for `remove_useless` (C03). -/
-namespace Dsw
+import DswModel.Lemmas.Convert3
+/-! Helper lemmas for the threshold-1 phase of `connect_coding_graph` and for `remove_useless` (C03).
 
-end Dsw
+Everything lives in the namespace `Dsw.TrimOne`. -/
+namespace Dsw.TrimOne
+open Trim
+
+/-! ### de Bruijn arithmetic (kept local so that this file does not depend on a property file) -/
+
+theorem formers_lt {k v : Nat} (hk : 1 ≤ k) (h : v < 4 ^ k) :
+    ∀ u ∈ obtainFormers k v, u < 4 ^ k := by
+  obtain ⟨k, rfl⟩ : ∃ k', k = k' + 1 := ⟨k - 1, by omega⟩
+  intro u hu
+  rcases (mem_obtainFormers _ v u).1 hu with ⟨j, hj, rfl⟩
+  simp only [Nat.add_sub_cancel]
+  rw [four_pow_succ] at h ⊢
+  have : j * 4 ^ k ≤ 3 * 4 ^ k := Nat.mul_le_mul_right _ (by omega)
+  omega
+
+theorem former_iff_latter {k u v : Nat} (hk : 1 ≤ k) (hu : u < 4 ^ k) (hv : v < 4 ^ k) :
+    u ∈ obtainFormers k v ↔ v ∈ obtainLatters k u := by
+  obtain ⟨k, rfl⟩ : ∃ k', k = k' + 1 := ⟨k - 1, by omega⟩
+  rw [mem_obtainFormers, mem_obtainLatters]
+  simp only [Nat.add_sub_cancel]
+  rw [four_pow_succ] at hu hv ⊢
+  constructor
+  · rintro ⟨j, hj, rfl⟩
+    refine ⟨v % 4, by omega, ?_⟩
+    have e : (v / 4 + j * 4 ^ k) * 4 + v % 4 = v + j * (4 * 4 ^ k) := by
+      rw [Nat.add_mul, Nat.mul_assoc, Nat.mul_comm (4 ^ k) 4]; omega
+    rw [e, Nat.add_mul_mod_self_right, Nat.mod_eq_of_lt hv]
+  · rintro ⟨j, hj, rfl⟩
+    rw [shift_mod _ _ _ hj]
+    refine ⟨u / 4 ^ k, ?_, ?_⟩
+    · exact Nat.div_lt_of_lt_mul (by rw [Nat.mul_comm]; exact hu)
+    · have h1 : (u % 4 ^ k * 4 + j) / 4 = u % 4 ^ k := by omega
+      rw [h1, Nat.add_comm, Nat.div_add_mod']
+
+theorem shift_lt (k u j : Nat) : (u * 4 + j) % 4 ^ k < 4 ^ k := Nat.mod_lt _ (four_pow_pos k)
+
+theorem shift_mem (k u j : Nat) (hj : j < 4) : (u * 4 + j) % 4 ^ k ∈ obtainLatters k u :=
+  (mem_obtainLatters k u _).2 ⟨j, hj, rfl⟩
+
+/-- the column of a successor determines it. -/
+theorem shift_inj {k u j j' : Nat} (hk : 1 ≤ k) (hj : j < 4) (hj' : j' < 4)
+    (h : (u * 4 + j) % 4 ^ k = (u * 4 + j') % 4 ^ k) : j = j' := by
+  have h1 := shift_column_cv3 k u j hk hj
+  have h2 := shift_column_cv3 k u j' hk hj'
+  rw [h] at h1; omega
+
+/-! ### counting -/
+
+theorem filter_length_lt {α} (p q : α → Bool) (hpq : ∀ x, p x = true → q x = true) :
+    ∀ (l : List α) (x : α), x ∈ l → q x = true → p x = false →
+      (l.filter p).length < (l.filter q).length := by
+  intro l
+  induction l with
+  | nil => intro x hx; cases hx
+  | cons y ys ih =>
+    intro x hx hq hp
+    simp only [List.filter_cons]
+    rcases List.mem_cons.1 hx with rfl | hx
+    · have := filter_length_mono p q hpq ys
+      simp [hq, hp]; omega
+    · have := ih x hx hq hp
+      cases hpy : p y
+      · cases hqy : q y <;> simp <;> omega
+      · simp [hpq y hpy]; omega
+
+/-! ### out-degrees -/
+
+theorem deg_pos_iff (a : Acc) (v : Nat) : 0 < a.deg v ↔ ∃ j, j < 4 ∧ 0 ≤ a.ent (v : Int) j := by
+  unfold Acc.deg
+  rw [List.length_pos_iff_exists_mem]
+  constructor
+  · rintro ⟨j, hj⟩; exact ⟨j, (Acc.mem_live _ _ _).1 hj⟩
+  · rintro ⟨j, hj⟩; exact ⟨j, (Acc.mem_live _ _ _).2 hj⟩
+
+theorem deg_eq_zero_iff (a : Acc) (v : Nat) :
+    a.deg v = 0 ↔ ∀ j, j < 4 → a.ent (v : Int) j < 0 := by
+  constructor
+  · intro h j hj
+    apply Classical.byContradiction
+    intro hn
+    have : 0 < a.deg v := (deg_pos_iff a v).2 ⟨j, hj, by omega⟩
+    omega
+  · intro h
+    apply Classical.byContradiction
+    intro hn
+    obtain ⟨j, hj, he⟩ := (deg_pos_iff a v).1 (by omega)
+    have := h j hj; omega
+
+/-- `b` has no arc that `a` does not have. -/
+def ArcLe (b a : Acc) : Prop := ∀ x i : Nat, 0 ≤ b.ent (x : Int) i → 0 ≤ a.ent (x : Int) i
+
+theorem ArcLe.deg_pos {a b : Acc} (h : ArcLe b a) {v : Nat} (hv : 0 < b.deg v) : 0 < a.deg v := by
+  obtain ⟨j, hj, he⟩ := (deg_pos_iff b v).1 hv
+  exact (deg_pos_iff a v).2 ⟨j, hj, h v j he⟩
+
+theorem ArcLe.deg_zero {a b : Acc} (h : ArcLe b a) {v : Nat} (hv : a.deg v = 0) : b.deg v = 0 := by
+  apply Classical.byContradiction
+  intro hn
+  have := h.deg_pos (v := v) (by omega); omega
+
+theorem deg_congr {a b : Acc} {v : Nat} (h : ∀ i, b.ent (v : Int) i = a.ent (v : Int) i) :
+    b.deg v = a.deg v := by
+  unfold Acc.deg Acc.live
+  simp only [h]
+
+/-- number of vertices with an arc. -/
+def liveCount (k : Nat) (a : Acc) : Nat :=
+  ((List.range (4 ^ k)).filter fun v => decide (0 < a.deg v)).length
+
+theorem liveCount_le (k : Nat) (a : Acc) : liveCount k a ≤ 4 ^ k := by
+  unfold liveCount
+  have := List.length_filter_le (fun v => decide (0 < a.deg v)) (List.range (4 ^ k))
+  simpa using this
+
+theorem ArcLe.liveCount_le {a b : Acc} (h : ArcLe b a) (k : Nat) : liveCount k b ≤ liveCount k a := by
+  unfold liveCount
+  apply filter_length_mono
+  intro v hv
+  simp only [decide_eq_true_eq] at hv ⊢
+  exact h.deg_pos hv
+
+theorem ArcLe.liveCount_lt {a b : Acc} (h : ArcLe b a) (k : Nat) {v : Nat} (hv : v < 4 ^ k)
+    (ha : 0 < a.deg v) (hb : b.deg v = 0) : liveCount k b < liveCount k a := by
+  unfold liveCount
+  apply filter_length_lt _ _ _ _ v (List.mem_range.2 hv)
+  · simpa using ha
+  · simp [hb]
+  · intro x hx
+    simp only [decide_eq_true_eq] at hx ⊢
+    exact h.deg_pos hx
+
+/-! ### clearing one cell, clearing one row -/
+
+theorem ent_clear {k : Nat} {a : Acc} (h : WFdB k a) {f c : Nat} (hf : f < 4 ^ k) (hc : c < 4)
+    (x i : Nat) :
+    (a.setEnt f c (-1)).ent (x : Int) i = if x = f ∧ i = c then -1 else a.ent (x : Int) i := by
+  by_cases hx : x = f ∧ i = c
+  · rw [if_pos hx]
+    obtain ⟨rfl, rfl⟩ := hx
+    apply Acc.ent_setEnt_self
+    rw [(h.2 x hf).1]; exact hc
+  · rw [if_neg hx]
+    apply Acc.ent_setEnt_ne
+    by_cases h1 : x = f
+    · right; intro h2; exact hx ⟨h1, h2⟩
+    · left; exact h1
+
+theorem ent_clearRow {a : Acc} {u : Nat} (hu : u < a.size) (x i : Nat) :
+    Acc.ent (a.setIfInBounds u (Array.replicate 4 (-1))) (x : Int) i =
+      if x = u then -1 else a.ent (x : Int) i := by
+  rw [Acc.ent_natCast, Acc.ent_natCast]
+  by_cases hx : x = u
+  · subst hx
+    rw [if_pos rfl, getD_setIfInBounds_self _ _ _ _ hu]
+    by_cases hi : i < 4
+    · simp [Array.getD, hi]
+    · simp [Array.getD, hi]
+  · rw [if_neg hx, getD_setIfInBounds_ne _ _ _ _ _ (Ne.symm hx)]
+
+/-! ### the cascade invariant -/
+
+/-- the invariant of the predecessor cascade, for a closed reference set `C` (which must survive)
+and a bounding set `M`: `a` is a de Bruijn sub-table that contains every de Bruijn arc between two
+of its vertices with arcs, every arc into a vertex without arcs is listed in `P`, every pair of `P`
+points to a vertex without arcs, all arcs inside `C` are present, all vertices with arcs are in
+`M`. -/
+structure CInv (k : Nat) (C M : Mask) (a : Acc) (P : List (Nat × Nat)) : Prop where
+  wf : WFdB k a
+  ind : ∀ u j : Nat, u < 4 ^ k → j < 4 → 0 < a.deg u → 0 < a.deg ((u * 4 + j) % 4 ^ k) →
+    0 ≤ a.ent (u : Int) j
+  good : ∀ p ∈ P, p.2 < 4 ^ k ∧ a.deg p.2 = 0 ∧ p.1 ∈ obtainFormers k p.2
+  pend : ∀ u j : Nat, u < 4 ^ k → j < 4 → 0 ≤ a.ent (u : Int) j → a.deg ((u * 4 + j) % 4 ^ k) = 0 →
+    (u, (u * 4 + j) % 4 ^ k) ∈ P
+  carcs : ∀ u j : Nat, u < 4 ^ k → j < 4 → C.getD u false = true →
+    C.getD ((u * 4 + j) % 4 ^ k) false = true → 0 ≤ a.ent (u : Int) j
+  sub : ∀ u : Nat, u < 4 ^ k → 0 < a.deg u → M.getD u false = true
+
+theorem CInv.congr {k : Nat} {C M : Mask} {a : Acc} {P P' : List (Nat × Nat)}
+    (h : CInv k C M a P) (hP : ∀ p, p ∈ P ↔ p ∈ P') : CInv k C M a P' :=
+  ⟨h.wf, h.ind, fun p hp => h.good p ((hP p).2 hp),
+    fun u j hu hj he hd => (hP _).1 (h.pend u j hu hj he hd), h.carcs, h.sub⟩
+
+/-- a marked vertex of a closed set has a marked successor. -/
+theorem closed_succ {k : Nat} {C : Mask} (hC : TrimClosed k 1 C) {v : Nat}
+    (hv : C.getD v false = true) :
+    ∃ j, j < 4 ∧ C.getD ((v * 4 + j) % 4 ^ k) false = true := by
+  have h := hC v hv
+  unfold succCount at h
+  obtain ⟨w, hw⟩ := List.exists_mem_of_length_pos (Nat.lt_of_lt_of_le Nat.zero_lt_one h)
+  rw [List.mem_filter] at hw
+  obtain ⟨j, hj, rfl⟩ := (mem_obtainLatters k v w).1 hw.1
+  exact ⟨j, hj, hw.2⟩
+
+/-- the vertices of the reference set keep an arc. -/
+theorem CInv.c_live {k : Nat} {C M : Mask} {a : Acc} {P : List (Nat × Nat)}
+    (h : CInv k C M a P) (hC : TrimClosed k 1 C) (hCs : C.size = 4 ^ k) {v : Nat}
+    (hv : C.getD v false = true) : 0 < a.deg v := by
+  obtain ⟨j, hj, hw⟩ := closed_succ hC hv
+  have hvn : v < 4 ^ k := by rw [← hCs]; exact Mask.lt_size_of_getD hv
+  exact (deg_pos_iff a v).2 ⟨j, hj, h.carcs v j hvn hj hv hw⟩
+
+/-- one step of the inner loop of `cascade`. -/
+def cstep (k : Nat) (st : Acc × List (Nat × Nat)) (fl : Nat × Nat) : Acc × List (Nat × Nat) :=
+  let previous := st.1.deg fl.1
+  let a' := st.1.setEnt fl.1 (fl.2 % 4) (-1)
+  let current := a'.deg fl.1
+  (a', if previous > current ∧ current = 0 then
+         st.2 ++ (obtainFormers k fl.1).map fun i => (i, fl.1) else st.2)
+
+theorem cascade_succ (k f : Nat) (pairs : List (Nat × Nat)) (a : Acc) :
+    cascade k (f + 1) pairs a =
+      if pairs.isEmpty then a else
+        cascade k f (pairs.foldl (cstep k) (a, [])).2 (pairs.foldl (cstep k) (a, [])).1 := rfl
+
+/-- facts about a pair that satisfies `good`. -/
+theorem good_pair {k : Nat} (hk : 1 ≤ k) {f l : Nat} (hl : l < 4 ^ k) (hf : f ∈ obtainFormers k l) :
+    f < 4 ^ k ∧ l % 4 < 4 ∧ (f * 4 + l % 4) % 4 ^ k = l := by
+  have hfn := formers_lt hk hl f hf
+  have := (former_iff_latter hk hfn hl).1 hf
+  exact ⟨hfn, by omega, latter_column k f l this⟩
+
+/-- the invariant is kept by one step of the inner loop. -/
+theorem cstep_inv {k : Nat} {C M : Mask} (hk : 1 ≤ k) (hC : TrimClosed k 1 C) (hCs : C.size = 4 ^ k)
+    {a : Acc} {fl : Nat × Nat} {L new : List (Nat × Nat)} (h : CInv k C M a (fl :: L ++ new)) :
+    CInv k C M (cstep k (a, new) fl).1 (L ++ (cstep k (a, new) fl).2) ∧
+    ArcLe (cstep k (a, new) fl).1 a ∧
+    ((cstep k (a, new) fl).2 = new ∨ liveCount k (cstep k (a, new) fl).1 < liveCount k a) := by
+  obtain ⟨f, l⟩ := fl
+  obtain ⟨hl, hdl, hfl⟩ := h.good (f, l) (by simp)
+  simp only at hl hdl hfl
+  obtain ⟨hf, hc, hsh⟩ := good_pair hk hl hfl
+  have hent : ∀ x i : Nat, (a.setEnt f (l % 4) (-1)).ent (x : Int) i =
+      if x = f ∧ i = l % 4 then -1 else a.ent (x : Int) i := ent_clear h.wf hf hc
+  have hle : ArcLe (a.setEnt f (l % 4) (-1)) a := by
+    intro x i hx
+    rw [hent] at hx
+    split at hx
+    · omega
+    · exact hx
+  have hdeg : ∀ x, x ≠ f → (a.setEnt f (l % 4) (-1)).deg x = a.deg x := by
+    intro x hx
+    apply deg_congr
+    intro i
+    rw [hent, if_neg (fun hh => hx hh.1)]
+  have hwf : WFdB k (a.setEnt f (l % 4) (-1)) := wfdb_setEnt k _ _ _ _ h.wf (Or.inl rfl)
+  -- the new pair list, up to membership
+  have key : ∀ (E : List (Nat × Nat)),
+      (∀ p ∈ E, p.2 < 4 ^ k ∧ (a.setEnt f (l % 4) (-1)).deg p.2 = 0 ∧ p.1 ∈ obtainFormers k p.2) →
+      (∀ u, u < 4 ^ k → f ∈ obtainLatters k u → 0 < a.deg f → (a.setEnt f (l % 4) (-1)).deg f = 0 →
+        (u, f) ∈ E) →
+      CInv k C M (a.setEnt f (l % 4) (-1)) (L ++ (new ++ E)) := by
+    intro E hE1 hE2
+    refine ⟨hwf, ?_, ?_, ?_, ?_, ?_⟩
+    · intro u j hu hj h1 h2
+      have h3 := h.ind u j hu hj (hle.deg_pos h1) (hle.deg_pos h2)
+      rw [hent]
+      split
+      · rename_i hh
+        obtain ⟨rfl, rfl⟩ := hh
+        rw [hsh] at h2
+        have := hle.deg_pos h2
+        omega
+      · exact h3
+    · intro p hp
+      rcases List.mem_append.1 hp with hp | hp
+      · obtain ⟨h1, h2, h3⟩ := h.good p (by simp [hp])
+        exact ⟨h1, hle.deg_zero h2, h3⟩
+      · rcases List.mem_append.1 hp with hp | hp
+        · obtain ⟨h1, h2, h3⟩ := h.good p (by simp [hp])
+          exact ⟨h1, hle.deg_zero h2, h3⟩
+        · exact hE1 p hp
+    · intro u j hu hj he hd
+      rw [hent] at he
+      split at he
+      · omega
+      · rename_i hne
+        by_cases hda : a.deg ((u * 4 + j) % 4 ^ k) = 0
+        · have := h.pend u j hu hj he hda
+          rcases List.mem_cons.1 this with heq | hmem
+          · exfalso
+            simp only [Prod.mk.injEq] at heq
+            obtain ⟨rfl, h2⟩ := heq
+            apply hne
+            refine ⟨rfl, ?_⟩
+            have := shift_column_cv3 k u j hk hj
+            rw [h2] at this
+            exact this.symm
+          · rcases List.mem_append.1 hmem with hm | hm
+            · exact List.mem_append.2 (Or.inl hm)
+            · exact List.mem_append.2 (Or.inr (List.mem_append.2 (Or.inl hm)))
+        · have hwf' : (u * 4 + j) % 4 ^ k = f := by
+            apply Classical.byContradiction
+            intro hx
+            rw [hdeg _ hx] at hd
+            exact hda hd
+          rw [hwf'] at hd hda ⊢
+          apply List.mem_append.2 (Or.inr (List.mem_append.2 (Or.inr ?_)))
+          apply hE2 u hu _ (by omega) hd
+          rw [← hwf']
+          exact shift_mem k u j hj
+    · intro u j hu hj h1 h2
+      have h3 := h.carcs u j hu hj h1 h2
+      rw [hent]
+      split
+      · rename_i hh
+        obtain ⟨rfl, rfl⟩ := hh
+        rw [hsh] at h2
+        have := h.c_live hC hCs h2
+        omega
+      · exact h3
+    · intro u hu h1
+      exact h.sub u hu (hle.deg_pos h1)
+  unfold cstep
+  simp only
+  by_cases hcond : a.deg f > (a.setEnt f (l % 4) (-1)).deg f ∧ (a.setEnt f (l % 4) (-1)).deg f = 0
+  · rw [if_pos hcond]
+    refine ⟨?_, hle, Or.inr (hle.liveCount_lt k hf (by omega) hcond.2)⟩
+    apply key
+    · intro p hp
+      rw [List.mem_map] at hp
+      obtain ⟨i, hi, rfl⟩ := hp
+      exact ⟨hf, hcond.2, hi⟩
+    · intro u hu hfu _ _
+      rw [List.mem_map]
+      exact ⟨u, (former_iff_latter hk hu hf).2 hfu, rfl⟩
+  · rw [if_neg hcond]
+    refine ⟨?_, hle, Or.inl rfl⟩
+    have := key [] (by intro p hp; cases hp) (by
+      intro u _ _ h1 h2
+      exact absurd ⟨by omega, h2⟩ hcond)
+    simpa using this
+
+theorem ArcLe.refl (a : Acc) : ArcLe a a := fun _ _ h => h
+theorem ArcLe.trans {a b c : Acc} (h1 : ArcLe a b) (h2 : ArcLe b c) : ArcLe a c :=
+  fun x i h => h2 x i (h1 x i h)
+
+/-- the invariant is kept by one wave. -/
+theorem cfold_inv {k : Nat} {C M : Mask} (hk : 1 ≤ k) (hC : TrimClosed k 1 C) (hCs : C.size = 4 ^ k) :
+    ∀ (pairs : List (Nat × Nat)) (a : Acc) (new : List (Nat × Nat)),
+      CInv k C M a (pairs ++ new) →
+      CInv k C M (pairs.foldl (cstep k) (a, new)).1 (pairs.foldl (cstep k) (a, new)).2 ∧
+      ArcLe (pairs.foldl (cstep k) (a, new)).1 a ∧
+      ((pairs.foldl (cstep k) (a, new)).2 = new ∨
+        liveCount k (pairs.foldl (cstep k) (a, new)).1 < liveCount k a) := by
+  intro pairs
+  induction pairs with
+  | nil => intro a new h; exact ⟨by simpa using h, ArcLe.refl a, Or.inl rfl⟩
+  | cons fl rest ih =>
+    intro a new h
+    obtain ⟨h1, h2, h3⟩ := cstep_inv hk hC hCs (fl := fl) (L := rest) (new := new) (by simpa using h)
+    rw [List.foldl_cons]
+    have e : cstep k (a, new) fl = ((cstep k (a, new) fl).1, (cstep k (a, new) fl).2) := rfl
+    rw [e]
+    obtain ⟨i1, i2, i3⟩ := ih _ _ h1
+    refine ⟨i1, i2.trans h2, ?_⟩
+    have hmono := i2.liveCount_le k
+    rcases i3 with i3 | i3
+    · rcases h3 with h3 | h3
+      · left; rw [i3, h3]
+      · right; omega
+    · right
+      have := h2.liveCount_le k
+      omega
+
+/-- the whole cascade: it ends with no arc into a vertex without arcs. -/
+theorem cascade_inv {k : Nat} {C M : Mask} (hk : 1 ≤ k) (hC : TrimClosed k 1 C) (hCs : C.size = 4 ^ k) :
+    ∀ (f : Nat) (pairs : List (Nat × Nat)) (a : Acc), CInv k C M a pairs →
+      (pairs ≠ [] → liveCount k a < f) →
+      CInv k C M (cascade k f pairs a) [] ∧ ArcLe (cascade k f pairs a) a := by
+  intro f
+  induction f with
+  | zero =>
+    intro pairs a h hf
+    have : pairs = [] := by
+      apply Classical.byContradiction
+      intro hne; have := hf hne; omega
+    subst this
+    exact ⟨h, ArcLe.refl a⟩
+  | succ f ih =>
+    intro pairs a h hf
+    rw [cascade_succ]
+    cases pairs with
+    | nil => exact ⟨h, ArcLe.refl a⟩
+    | cons p ps =>
+      simp only [List.isEmpty_cons, Bool.false_eq_true, if_false]
+      have hlt := hf (by simp)
+      obtain ⟨h1, h2, h3⟩ := cfold_inv hk hC hCs (p :: ps) a [] (by simpa using h)
+      obtain ⟨i1, i2⟩ := ih _ _ h1 (by
+        intro hne
+        rcases h3 with h3 | h3
+        · exact absurd h3 hne
+        · omega)
+      exact ⟨i1, i2.trans h2⟩
+
+/-! ### removing one vertex, removing a list of vertices -/
+
+theorem removeVertex_inv {k : Nat} {C M : Mask} (hk : 1 ≤ k) (hC : TrimClosed k 1 C)
+    (hCs : C.size = 4 ^ k) {a : Acc} {u : Nat} (h : CInv k C M a []) (hu : u < 4 ^ k)
+    (hCu : ¬ C.getD u false = true) :
+    CInv k C M (removeVertex k a u) [] ∧ ArcLe (removeVertex k a u) a ∧
+      (0 < a.deg u → liveCount k (removeVertex k a u) < liveCount k a) := by
+  have hus : u < a.size := by rw [h.wf.1]; exact hu
+  have hent : ∀ x i : Nat, Acc.ent (a.setIfInBounds u (Array.replicate 4 (-1))) (x : Int) i =
+      if x = u then -1 else a.ent (x : Int) i := ent_clearRow hus
+  have hle : ArcLe (a.setIfInBounds u (Array.replicate 4 (-1))) a := by
+    intro x i hx
+    rw [hent] at hx
+    split at hx
+    · omega
+    · exact hx
+  have hdeg : ∀ x, x ≠ u → Acc.deg (a.setIfInBounds u (Array.replicate 4 (-1))) x = a.deg x := by
+    intro x hx
+    apply deg_congr
+    intro i
+    rw [hent, if_neg hx]
+  have hdu : Acc.deg (a.setIfInBounds u (Array.replicate 4 (-1))) u = 0 := by
+    rw [deg_eq_zero_iff]
+    intro j _
+    rw [hent, if_pos rfl]; omega
+  have hwf : WFdB k (a.setIfInBounds u (Array.replicate 4 (-1))) :=
+    wfdb_setIfInBounds_row k a u _ h.wf (rowOK_replicate k u)
+  have h1 : CInv k C M (a.setIfInBounds u (Array.replicate 4 (-1)))
+      ((obtainFormers k u).map fun i => (i, u)) := by
+    refine ⟨hwf, ?_, ?_, ?_, ?_, ?_⟩
+    · intro x j hx hj d1 d2
+      have := h.ind x j hx hj (hle.deg_pos d1) (hle.deg_pos d2)
+      rw [hent]
+      split
+      · rename_i hxu; subst hxu; omega
+      · exact this
+    · intro p hp
+      rw [List.mem_map] at hp
+      obtain ⟨i, hi, rfl⟩ := hp
+      exact ⟨hu, hdu, hi⟩
+    · intro x j hx hj he hd
+      rw [hent] at he
+      split at he
+      · omega
+      · by_cases hda : a.deg ((x * 4 + j) % 4 ^ k) = 0
+        · have := h.pend x j hx hj he hda
+          cases this
+        · have hw : (x * 4 + j) % 4 ^ k = u := by
+            apply Classical.byContradiction
+            intro hne
+            rw [hdeg _ hne] at hd
+            exact hda hd
+          rw [hw, List.mem_map]
+          refine ⟨x, (former_iff_latter hk hx hu).2 ?_, rfl⟩
+          rw [← hw]; exact shift_mem k x j hj
+    · intro x j hx hj c1 c2
+      have := h.carcs x j hx hj c1 c2
+      rw [hent]
+      split
+      · rename_i hxu; subst hxu; exact absurd c1 hCu
+      · exact this
+    · intro x hx d
+      exact h.sub x hx (hle.deg_pos d)
+  have hfuel : liveCount k (a.setIfInBounds u (Array.replicate 4 (-1))) < a.size + 1 := by
+    have := liveCount_le k (a.setIfInBounds u (Array.replicate 4 (-1)))
+    rw [h.wf.1]; omega
+  obtain ⟨c1, c2⟩ := cascade_inv hk hC hCs (a.size + 1) _ _ h1 (fun _ => hfuel)
+  refine ⟨c1, c2.trans hle, fun hpos => ?_⟩
+  have l1 := c2.liveCount_le k
+  have l2 := hle.liveCount_lt k hu hpos hdu
+  have e : removeVertex k a u = cascade k (a.size + 1) ((obtainFormers k u).map fun i => (i, u))
+      (a.setIfInBounds u (Array.replicate 4 (-1))) := rfl
+  rw [e]
+  omega
+
+theorem removeAll_inv {k : Nat} {C M : Mask} (hk : 1 ≤ k) (hC : TrimClosed k 1 C)
+    (hCs : C.size = 4 ^ k) : ∀ (us : List Nat) (a : Acc), CInv k C M a [] →
+      (∀ u ∈ us, u < 4 ^ k ∧ ¬ C.getD u false = true) →
+      CInv k C M (us.foldl (removeVertex k) a) [] ∧ ArcLe (us.foldl (removeVertex k) a) a := by
+  intro us
+  induction us with
+  | nil => intro a h _; exact ⟨h, ArcLe.refl a⟩
+  | cons u us ih =>
+    intro a h hus
+    obtain ⟨hu1, hu2⟩ := hus u (by simp)
+    obtain ⟨r1, r2, _⟩ := removeVertex_inv hk hC hCs h hu1 hu2
+    obtain ⟨i1, i2⟩ := ih _ r1 (fun x hx => hus x (by simp [hx]))
+    exact ⟨i1, i2.trans r2⟩
+
+theorem removeAll_lt {k : Nat} {C M : Mask} (hk : 1 ≤ k) (hC : TrimClosed k 1 C)
+    (hCs : C.size = 4 ^ k) (u : Nat) (us : List Nat) (a : Acc) (h : CInv k C M a [])
+    (hus : ∀ x ∈ u :: us, x < 4 ^ k ∧ ¬ C.getD x false = true) (hu : 0 < a.deg u) :
+    liveCount k ((u :: us).foldl (removeVertex k) a) < liveCount k a := by
+  obtain ⟨hu1, hu2⟩ := hus u (by simp)
+  obtain ⟨r1, _, r3⟩ := removeVertex_inv hk hC hCs h hu1 hu2
+  obtain ⟨_, i2⟩ := removeAll_inv hk hC hCs us _ r1 (fun x hx => hus x (by simp [hx]))
+  have := i2.liveCount_le k
+  have := r3 hu
+  rw [List.foldl_cons]
+  omega
+
+/-! ### the backward closure `usefulLoop` -/
+
+def ustep (a : Acc) (useful : Array Bool) (ex : Array Bool) (v : Nat) : Array Bool :=
+  if useful.getD v false then ex
+  else ex.setIfInBounds v ((a.liveEntries (v : Int)).any fun w => useful.getD w false)
+
+theorem usefulStep_eq (a : Acc) (vs : List Nat) (useful : Array Bool) :
+    usefulStep a vs useful = vs.foldl (ustep a useful) useful := rfl
+
+theorem ustep_size (a : Acc) (u ex : Array Bool) (v : Nat) : (ustep a u ex v).size = ex.size := by
+  unfold ustep; split <;> simp
+
+theorem ufold_size (a : Acc) (u : Array Bool) : ∀ (l : List Nat) (ex : Array Bool),
+    (l.foldl (ustep a u) ex).size = ex.size := by
+  intro l
+  induction l with
+  | nil => intro ex; rfl
+  | cons x xs ih => intro ex; rw [List.foldl_cons, ih, ustep_size]
+
+theorem ufold_getD (a : Acc) (u : Array Bool) : ∀ (l : List Nat) (ex : Array Bool) (v : Nat),
+    (l.foldl (ustep a u) ex).getD v false =
+      if v ∈ l ∧ u.getD v false = false ∧ v < ex.size then
+        (a.liveEntries (v : Int)).any fun w => u.getD w false
+      else ex.getD v false := by
+  intro l
+  induction l with
+  | nil => intro ex v; simp
+  | cons x xs ih =>
+    intro ex v
+    rw [List.foldl_cons, ih, ustep_size]
+    by_cases hvx : v = x
+    · subst hvx
+      by_cases hu : u.getD v false = true
+      · have : ustep a u ex v = ex := by unfold ustep; rw [if_pos hu]
+        simp [this, hu]
+      · have hu' : u.getD v false = false := by simpa using hu
+        have : ustep a u ex v = ex.setIfInBounds v
+            ((a.liveEntries (v : Int)).any fun w => u.getD w false) := by
+          unfold ustep; rw [if_neg hu]
+        rw [this]
+        by_cases hs : v < ex.size
+        · simp [hu', hs, getD_setIfInBounds_self _ _ _ _ hs]
+        · simp [hs]
+    · have : (ustep a u ex x).getD v false = ex.getD v false := by
+        unfold ustep
+        split
+        · rfl
+        · exact getD_setIfInBounds_ne _ _ _ _ _ (Ne.symm hvx)
+      rw [this]
+      simp [hvx]
+
+theorem usefulStep_size (a : Acc) (vs : List Nat) (u : Array Bool) :
+    (usefulStep a vs u).size = u.size := by
+  rw [usefulStep_eq, ufold_size]
+
+theorem usefulStep_getD (a : Acc) (vs : List Nat) (u : Array Bool) (v : Nat) :
+    (usefulStep a vs u).getD v false =
+      if v ∈ vs ∧ u.getD v false = false ∧ v < u.size then
+        (a.liveEntries (v : Int)).any fun w => u.getD w false
+      else u.getD v false := by
+  rw [usefulStep_eq, ufold_getD]
+
+theorem usefulStep_le (a : Acc) (vs : List Nat) (u : Array Bool) :
+    Mask.Le u (usefulStep a vs u) := by
+  intro v hv
+  rw [usefulStep_getD, if_neg]
+  · exact hv
+  · rintro ⟨_, h, _⟩; rw [hv] at h; cases h
+
+theorem usefulStep_sound {a : Acc} {vs : List Nat} {u : Array Bool} {v : Nat}
+    (h : (usefulStep a vs u).getD v false = true) :
+    u.getD v false = true ∨
+      (v ∈ vs ∧ ∃ w, w ∈ a.liveEntries (v : Int) ∧ u.getD w false = true) := by
+  rw [usefulStep_getD] at h
+  split at h
+  · rename_i hc
+    right
+    rw [List.any_eq_true] at h
+    exact ⟨hc.1, h⟩
+  · exact Or.inl h
+
+theorem usefulStep_closed {a : Acc} {vs : List Nat} {u : Array Bool} {v w : Nat}
+    (hv : v ∈ vs) (hs : v < u.size) (hw : w ∈ a.liveEntries (v : Int))
+    (hu : u.getD w false = true) : (usefulStep a vs u).getD v false = true := by
+  rw [usefulStep_getD]
+  by_cases h : u.getD v false = true
+  · rw [if_neg]
+    · exact h
+    · rintro ⟨_, h', _⟩; rw [h] at h'; cases h'
+  · rw [if_pos ⟨hv, by simpa using h, hs⟩, List.any_eq_true]
+    exact ⟨w, hw, hu⟩
+
+theorem usefulLoop_spec (a : Acc) (vs : List Nat) : ∀ (f : Nat) (u : Array Bool),
+    u.size < f + Mask.count u →
+    Mask.Le u (usefulLoop a vs f u) ∧ (usefulLoop a vs f u).size = u.size ∧
+    usefulStep a vs (usefulLoop a vs f u) = usefulLoop a vs f u ∧
+    (∀ P : Nat → Prop, (∀ v, u.getD v false = true → P v) →
+      (∀ v w, v ∈ vs → w ∈ a.liveEntries (v : Int) → P w → P v) →
+      ∀ v, (usefulLoop a vs f u).getD v false = true → P v) := by
+  intro f
+  induction f with
+  | zero =>
+    intro u h
+    have := Mask.count_le_size u
+    omega
+  | succ f ih =>
+    intro u h
+    rw [usefulLoop]
+    have hle := usefulStep_le a vs u
+    have hsz := usefulStep_size a vs u
+    split
+    · rename_i hc
+      have heq : u = usefulStep a vs u := Mask.eq_of_le_of_count hsz.symm hle hc
+      exact ⟨Mask.Le.refl u, rfl, heq.symm, fun P h0 _ v hv => h0 v hv⟩
+    · rename_i hc
+      have hcl := Mask.count_le_of_le hsz.symm hle
+      obtain ⟨i1, i2, i3, i4⟩ := ih (usefulStep a vs u) (by rw [hsz]; omega)
+      refine ⟨hle.trans i1, by rw [i2, hsz], i3, fun P h0 hs v hv => ?_⟩
+      apply i4 P _ hs v hv
+      intro x hx
+      rcases usefulStep_sound hx with h1 | ⟨h1, w, h2, h3⟩
+      · exact h0 x h1
+      · exact hs x w h1 h2 (h0 w h3)
+
+/-- `v` reaches, along arcs of `a`, a vertex with two or more arcs. -/
+inductive ARB (a : Acc) : Nat → Prop
+  | here (v : Nat) : 2 ≤ a.deg v → ARB a v
+  | step (v w : Nat) : w ∈ a.liveEntries (v : Int) → ARB a w → ARB a v
+
+
+end Dsw.TrimOne
